@@ -330,6 +330,15 @@ def check_tree(data: dict, lab: Labels) -> None:
             r_ = ASTNode.get_any(key)
             require(r_ is None or r_.id == key, "lookup-returns-node-with-other-id",
                     f"get_any({key!r}) returns a node whose id is {getattr(r_, 'id', None)!r}")
+    if recreated and data["mask"] % 3 == 0:
+        # the payload belongs to the caller and can be read again: the nodes the first reading made are given
+        # up, the very same payload object is read a second time
+        for n_ in recreated_nodes:
+            n_.detach_self()
+        res2 = _de(M.cls(root_e.cls), payload, fmt, dopts)
+        _compare_dumps(snap, dump_tree(res2, cmp_sources), "second reading of the same payload object")
+        lab.tag("payload-read-twice")
+        del res2
     if root_kept:
         require(res is orig_by_obj[0], "root-original-not-returned", "")
     if mode == 3 or root_kept:
